@@ -27,6 +27,44 @@ def _upper_bounded(conds, key, size):
     return False
 
 
+_FLIPOP = {"<": ">", ">": "<", "<=": ">=", ">=": "<="}
+_NEGOP2 = {"<": ">=", "<=": ">", ">": "<=", ">=": "<", "==": "!=", "!=": "=="}
+
+
+def _index_guarded(conds, base, key):
+    """Do the path conditions establish 0 <= key < len(base)?  (key a non-negative constant: a lower bound on len(base) above it,
+    or base/len(base) tested truthy for index 0; key a term: key < len(base) in either orientation.)"""
+    ln = ("call", ("builtin", "len"), (base,))
+    for c in conds:
+        t, pol = c.term, c.pol
+        while isinstance(t, tuple) and t and t[0] == "not":
+            t, pol = t[1], not pol
+        if is_const(key) and isinstance(key[1], int) and not isinstance(key[1], bool):
+            k = key[1]
+            if k < 0:
+                continue
+            if t in (ln, base) and pol is True and k == 0:
+                return True
+            if isinstance(t, tuple) and t[0] == "truthy":
+                continue
+            if isinstance(t, tuple) and t[0] == "cmp" and t[2] == ln and is_const(t[3]) and isinstance(t[3][1], int):
+                op, cst = t[1], t[3][1]
+                if not pol:
+                    op = _NEGOP2.get(op, op)
+                if (op == ">" and cst >= k) or (op == ">=" and cst > k) or (op == "==" and cst > k):
+                    return True
+            continue
+        if isinstance(t, tuple) and t[0] == "cmp" and t[1] in _FLIPOP:
+            op, a, b = t[1], t[2], t[3]
+            if not pol:
+                op = _NEGOP2[op]
+            if a == ln and b == key:
+                op, a, b = _FLIPOP[op], b, a
+            if a == key and b == ln and op == "<":
+                return True
+    return False
+
+
 def _is_object_call(expr):
     return isinstance(expr, ast.Call) and isinstance(expr.func, ast.Name) and expr.func.id == "object" and not expr.args and not expr.keywords
 
@@ -447,6 +485,15 @@ class ExprMixin:
             if base[0] == "functable":
                 yield from self.functable_lookup(base, key, None, st, fx, node, subscript=True)
                 return
+            if base[0] == "attr" and base[1] == SELF and not (isinstance(key, tuple) and key[:1] == ("slice",)) \
+                    and getattr(self, "full_init_heap", {}).get((SELF, base[2])) == ("call", ("builtin", "bytearray"), ()) \
+                    and not isinstance(getattr(node, "slice", None), ast.Slice):
+                # a byte of the receive buffer: reading past what has arrived is an IndexError, unless the path has tested the
+                # length (what arrives, and in how many pieces, is up to the network)
+                if not _index_guarded(st.conds, base, key):
+                    s2 = st.fork()
+                    self.emit(s2, fx, "BUFINDEX", node, base=base, key=key)
+                    yield "raise", self.exc(s2, "IndexError", "bytearray index out of range"), s2
         yield "ok", ("sub", base, key), st
 
     def functable_lookup(self, base, key, dflt, st, fx, node, subscript=False):
